@@ -523,7 +523,11 @@ func cmdCache(args []string) int {
 		}
 	}
 	if *stress > 0 {
-		cacheManyStatements(4500, addViol)
+		if thoroughTier {
+			cacheManyStatements(70000, addViol)
+		} else {
+			cacheManyStatements(4500, addViol)
+		}
 		concurrentNewDB(20**stress, addViol)
 	}
 	for i := 0; i < *stress; i++ {
